@@ -15,7 +15,7 @@ import (
 func TestVerif_C09(t *testing.T) {
 	r := verifrt.Start(t, "C09")
 	defer r.Finish()
-	r.Rule("case = random tree (1-2 roots, depth<=4, width<=4, <=22 nodes) on a fresh actor system + an operation mix in {one stop at a time, 2-6 goroutines of overlapping stops (Kill, PID.Stop by the parent, PID.Shutdown, PoisonPill, ctx-stop from the parent's turn, supervisor Stop directive), stops+SpawnChild, stops+Restart, all, then ActorSystem.Stop}; oracle = PostStop order over the hook log using the name-encoded ancestry, IsRunning/ActorOf of every subtree member when a synchronous stop returns, liveness gauge vs tree registration and ActorOf at death-watch quiescence, structural audit of pid_tree (indexes, parent/descendant links, watcher symmetry, count); non-trivial = two stop operations on an ancestor/descendant (or same) pair overlapped in time, or (mix single) a stop of a node with descendants returned and was judged; distinct by knob tuple and seed")
+	r.Rule("case = random tree (1-2 roots, depth<=4, width<=4, <=22 nodes) on a fresh actor system + an operation mix in {one stop at a time, 2-6 goroutines of overlapping stops (Kill, PID.Stop by the parent, PID.Shutdown, PoisonPill, ctx-stop from the parent's turn, supervisor Stop directive), stops+SpawnChild, stops+Restart, all, then ActorSystem.Stop, all workers stopping one and the same node repeatedly}; oracle = PostStop order over the hook log using the name-encoded ancestry, IsRunning/ActorOf of every subtree member when a synchronous stop returns, liveness gauge vs tree registration and ActorOf at death-watch quiescence, structural audit of pid_tree (indexes, parent/descendant links, watcher symmetry, count); non-trivial = two stop operations on an ancestor/descendant (or same) pair overlapped in time, or (mix single) a stop of a node with descendants returned and was judged; distinct by knob tuple and seed")
 	rng := r.Rand(9)
 	n := r.N(80, 2400)
 	for i := 0; i < n; i++ {
